@@ -66,14 +66,18 @@ def gen_history(rng, idx, concurrent):
     return {"idx": idx, "concurrent": concurrent, "conns": conns}
 
 
-def ident_audit(rec):
+def ident_audit(rec, pid=None):
     dest, adm = IDENTITIES[rec]
-    return audit(dest, uid=0 if adm else e2e.NOBODY_UID, pid="self" if rec % 2 == 0 else "helper", is_admin=adm)
+    return audit(dest, uid=0 if adm else e2e.NOBODY_UID, pid=pid or ("self" if rec % 2 == 0 else "helper"), is_admin=adm)
 
 
 def to_scenario(h):
+    """Connections may carry "extra" (knobs merged into the runner's connection: ops_before_connect, ops_before_close,
+    local_ip), "req_after" ({request index: ops}) and "pid" (audit pid).  h["run_concurrent"]: all connections at once
+    although the model replays them in program order (the choreography's barriers fix the order that matters)."""
     cs = []
     failing = False
+    at_once = h["concurrent"] or h.get("run_concurrent")
     accepted = {}           # port -> connections accepted from it so far
     for c in h["conns"]:
         accepted[c["port"]] = accepted.get(c["port"], 0) + 1
@@ -81,22 +85,91 @@ def to_scenario(h):
         for j in range(c["nreq"]):
             raw = http_request("GET", "/s%d/c%d/r%d?x=1" % (h["idx"], c["id"], j), [("Metadata", "true")])
             after = []
-            if j == 0 and not h["concurrent"]:
+            if j == 0 and not at_once:
                 after.append({"op": "snapshot", "label": c["id"]})
-            if c["late"] and c["late"][0] == j:
+            if c.get("late") and c["late"][0] == j:
                 after.append({"op": "insert_audit", "port": c["port"], "audit": ident_audit(c["late"][1])})
+            after += (c.get("req_after") or {}).get(j, [])
             reqs.append(req(raw, ops_after=after) if after else req(raw))
-        a = ident_audit(c["rec"]) if (c["rec"] is not None and not c["pre"]) else None
+        a = ident_audit(c["rec"], c.get("pid")) if (c["rec"] is not None and not c.get("pre")) else None
         knobs = {}
         if c["fail"] != failing:
             knobs["ops_before_connect"] = [{"op": "fail_remove", "value": c["fail"]}]
             failing = c["fail"]
-        if c["nreq"] == 0:
+        if c["nreq"] == 0 and not at_once:
             # no request at all: wait until the listener has accepted the connection, look at the map, close
             knobs["ops_before_close"] = [{"op": "wait_trace", "port": c["port"], "lookups": accepted[c["port"]]},
                                          {"op": "snapshot", "label": c["id"]}]
+        for k, v in (c.get("extra") or {}).items():
+            knobs[k] = (knobs.get(k, []) + v) if isinstance(v, list) else v
         cs.append(conn(reqs, audit=a, local_port=c["port"], id=c["id"], **knobs))
-    return scenario({"c07": h["idx"]}, cs, concurrent=h["concurrent"])
+    sc = scenario({"c07": h["idx"]}, cs, concurrent=bool(at_once))
+    sc.update(h.get("scenario_extra") or {})
+    return sc
+
+
+def C(i, port, rec, nreq, fail=False, pre=False, late=None, **kw):
+    return dict({"id": i, "port": port, "rec": rec, "nreq": nreq, "fail": fail, "pre": pre, "late": late}, **kw)
+
+
+def choreographies():
+    """fixed histories whose order is pinned by barriers (run at once, modelled in program order)"""
+    out = []
+    # (a) more simultaneously open connections than any plausible admission limit (520 idle direct ones), THEN an
+    #     attributed connection: it must be served with its own record and its record consumed; after the load is gone a
+    #     direct connection from the same port is unattributed
+    n_idle = 520
+    P = 3990
+    idle = [C(i + 1, 4000 + i, None, 0, extra={"ops_before_close": [{"op": "barrier", "name": "open", "n": n_idle + 1},
+                                                                    {"op": "barrier", "name": "done", "n": n_idle + 2}]})
+            for i in range(n_idle)]
+    a = C(n_idle + 1, P, 0, 2, extra={"ops_before_connect": [{"op": "barrier", "name": "open", "n": n_idle + 1}],
+                                      "ops_before_close": [{"op": "barrier", "name": "done", "n": n_idle + 2}]})
+    d = C(n_idle + 2, P, None, 1, optional=True,
+          extra={"ops_before_connect": [{"op": "barrier", "name": "done", "n": n_idle + 2}, {"op": "sleep_ms", "ms": 400}]})
+    out.append({"idx": 910001, "concurrent": False, "run_concurrent": True, "skip_trace": True, "conns": idle + [a, d],
+                "scenario_extra": {"scenario_timeout_ms": 240000, "timeout_ms": 60000}})
+    # (b) while an attributed keep-alive connection from 127.0.0.1:P is open (its accept is over), direct connections from
+    #     127.0.0.2:P and 127.0.0.3:P -- the map is keyed by the port alone -- must find nothing
+    P = 3991
+    a = C(1, P, 2, 3, req_after={0: [{"op": "barrier", "name": "b1", "n": 3}]},
+          extra={"ops_before_close": [{"op": "barrier", "name": "b2", "n": 3}]})
+    ds = [C(2 + k, P, None, 2, extra={"local_ip": "127.0.0.%d" % (2 + k), "ops_before_connect": [{"op": "barrier", "name": "b1", "n": 3}],
+                                      "ops_before_close": [{"op": "barrier", "name": "b2", "n": 3}]}) for k in range(2)]
+    out.append({"idx": 910002, "concurrent": False, "run_concurrent": True, "skip_trace": True, "conns": [a] + ds})
+    # (c) one process, two connections, exec() of another image in between: each connection's requests carry the
+    #     identity the process had at ITS connect
+    out.append({"idx": 910003, "concurrent": False, "exec": "h1",
+                "scenario_extra": {"exec_helpers": {"h1": ["tail", "-f", "/dev/null"]}},
+                "conns": [C(1, 3992, 0, 2, pid="h1"), C(2, 3993, 2, 3, pid="h1", extra={"ops_before_connect": [{"op": "helper_exec", "name": "h1"}]}),
+                          C(3, 3992, None, 1)]})
+    return out
+
+
+def exec_check(h, r):
+    """(c): the process part of the identity, as the agent's connection summary shows it per forwarded request"""
+    hp = (r.get("helpers") or {}).get(h["exec"]) or {}
+    before, after = hp.get("exe_before"), hp.get("exe_after")
+    if not before or not after or before == after:
+        return None          # the helper did not change its image: nothing to judge
+    want = {}
+    execd = False
+    for c in h["conns"]:
+        if any(o.get("op") == "helper_exec" for o in (c.get("extra") or {}).get("ops_before_connect", [])):
+            execd = True
+        if c.get("pid") == h["exec"] and c["rec"] is not None and c["rec"] not in DOWN_IDS:
+            ip, port = IDENTITIES[c["rec"]][0].rsplit(":", 1)
+            k = (after if execd else before, ip, int(port))
+            want[k] = want.get(k, 0) + c["nreq"]
+    have = {}
+    for e in (r.get("summary") or {}).get("ok") or []:
+        if e.get("responseStatus", "").startswith("200"):
+            k = (e.get("processFullPath"), e["ip"], e["port"])
+            have[k] = have.get(k, 0) + e["count"]
+    if have != want:
+        return ("the process exec()ed %s -> %s between its two connections; the requests were forwarded under %r, the identities at "
+                "connect time are %r" % (before, after, sorted(have.items()), sorted(want.items())))
+    return None
 
 
 def model_history(h, trace):
@@ -111,11 +184,11 @@ def model_history(h, trace):
                 ops.append("KRecord %d %d %d" % (c["id"], c["port"], c["rec"]))
             ops.append("Lookup %d %d" % (c["id"], c["port"]))
             ops.append("Remove %d %s" % (c["id"], "false" if c["fail"] else "true"))
-            if c["nreq"] == 0:
+            if c["nreq"] == 0 and not h.get("run_concurrent"):
                 cuts.append(len(ops))
             for j in range(c["nreq"]):
                 ops.append("Request %d %d" % (c["id"], j))
-                if j == 0:
+                if j == 0 and not h.get("run_concurrent"):
                     cuts.append(len(ops))
                 if c["late"] and c["late"][0] == j:
                     # the kernel's write for the NEXT connection from this port (ghost tag = its id)
@@ -213,12 +286,15 @@ def property_check(h, r, obs):
                     return "request %d on connection %d, which has NO kernel record (port %d), was %s (status %s)" % (
                         j, c["id"], c["port"],
                         "relayed under identity %r" % (IDENTITIES[ident],) if isinstance(ident, int) else "not refused with 421", st)
-        if not injected and not h["concurrent"]:
+        if not injected and not h["concurrent"] and not h.get("run_concurrent"):
             left = snaps.get(c["id"])
             if left is not None and c["port"] in left:
                 return "the record of source port %d is still in the audit map after connection %d was accepted" % (c["port"], c["id"])
     if not injected and [p for p, _ in r.get("audit_map", [])]:
-        return "records left in the audit map at the end of the history: %r" % (r["audit_map"],)
+        return ("every accepted connection's record must be consumed, but records are left in the audit map at the end of the "
+                "history: %r" % (r["audit_map"],))
+    if h.get("exec"):
+        return exec_check(h, r)
     return None
 
 
@@ -230,8 +306,6 @@ def run(ctx):
     nseq, nconc = (210, 90) if ctx.quick else (3500, 1500)
     hs = [gen_history(rng, i, False) for i in range(nseq)] + [gen_history(rng, nseq + i, True) for i in range(nconc)]
     # fixed corner cases first: reuse after attributed, reuse with a fresh record, failing remove + reuse
-    def C(i, port, rec, nreq, fail=False, pre=False, late=None):
-        return {"id": i, "port": port, "rec": rec, "nreq": nreq, "fail": fail, "pre": pre, "late": late}
     fixed = [
         # reuse after an attributed connection, reuse with a fresh record, reuse again
         {"idx": 900001, "concurrent": False, "conns": [C(1, 11001, 0, 3), C(2, 11001, None, 2), C(3, 11001, 6, 2), C(4, 11001, None, 1)]},
@@ -245,7 +319,7 @@ def run(ctx):
         # a record for the NEXT connection appears under the port of a still open direct connection
         {"idx": 900006, "concurrent": False, "conns": [C(1, 11006, None, 3, late=(0, 0)), C(2, 11006, 0, 2, pre=True), C(3, 11006, None, 1)]},
     ]
-    hs = fixed + hs
+    hs = fixed + choreographies() + hs
     scs = [to_scenario(h) for h in hs]
     results = e2e.run_scenarios(ctx, scs, timeout=1500, shards=4 if ctx.quick else 8)
     ctx.log("implementation: %d histories run" % len(results))
@@ -267,12 +341,24 @@ def run(ctx):
     disagreements, failures = [], []
     n_req = n_attr = n_unattr = n_reuse = n_stale = 0
     for h, r, mo in zip(hs, results, model):
-        case = {"history": h, "scenario_name": r.get("name")}
+        opt = {c["id"] for c in h["conns"] if c.get("optional")}
+        if opt and any(c.get("id") in opt and c.get("connect_error") for c in r["connections"]):
+            # the port-reusing tail of a choreography could not bind/connect in time: judge the history without it
+            bad = {c.get("id") for c in r["connections"] if c.get("id") in opt and c.get("connect_error")}
+            h = dict(h, conns=[c for c in h["conns"] if c["id"] not in bad])
+            r = dict(r, connections=[c for c in r["connections"] if c.get("id") not in bad])
+            mo = (bad, mo)
+        case = {"history": h if len(h["conns"]) < 40 else dict(h, conns="%d connections" % len(h["conns"])), "scenario_name": r.get("name")}
         if not r.get("ok") or any(c.get("connect_error") or c.get("error") for c in r["connections"]) or r.get("panics"):
             disagreements.append({"case": case, "model": "runs", "impl": {"error": r.get("error"), "panics": r.get("panics"),
                                   "conn_errors": [(c.get("connect_error"), c.get("error")) for c in r["connections"]]}})
             continue
+        dropped = set()
+        if isinstance(mo, tuple) and len(mo) == 2:
+            dropped, mo = mo
         decided, final_ports, snap_ports, ctx_table, (excl, rok) = mo
+        decided = [x for x in decided if x[0] not in dropped]
+        ctx_table = [x for x in ctx_table if x[0] not in dropped]
         obs = observe(h, r)
         why = property_check(h, r, obs)
         if why:
@@ -293,7 +379,7 @@ def run(ctx):
             disagreements.append({"case": case, "model": {"final_audit_ports": sorted(final_ports)}, "impl": r["audit_map"]})
         if not h["concurrent"]:
             got = [sorted(p for p, _ in s["audit_map"]) for s in r["snapshots"]]
-            if got != [sorted(x) for x in snap_ports]:
+            if not h.get("run_concurrent") and got != [sorted(x) for x in snap_ports]:
                 disagreements.append({"case": case, "model": {"audit_ports_after_each_accept": snap_ports}, "impl": got})
             # the lookup/remove trace in program order
             want = []
@@ -304,8 +390,10 @@ def run(ctx):
                 if found:
                     want.append(("remove", c["port"], c["fail"]))
             have = [(e["ev"], e["port"], e["found"] if e["ev"] == "lookup" else e["failed"]) for e in r["trace"] if e["ev"] in ("lookup", "remove")]
+            if h.get("skip_trace"):
+                want, have = sorted(want), sorted(have)          # order across connections is the scheduler's
             if want != have:
-                disagreements.append({"case": case, "model": {"trace": want}, "impl": have})
+                disagreements.append({"case": case, "model": {"trace": want[:50]}, "impl": have[:50]})
         for c in h["conns"]:
             n_req += c["nreq"]
         n_attr += sum(1 for c in h["conns"] if c["rec"] is not None)
